@@ -133,5 +133,28 @@ PROPS["C09"] = {
     "trusted": _CLIENT_TRUSTED, "assumptions": [],
 }
 
+PROPS["C04"] = {
+    "package": "cyc", "exe": "m_client", "harness_args": ["--prop", "C04"],
+    "rule": "every subset of {root, timestamp, snapshot, targets} expired by 10 s, 1 h, 400 d or 30 y under both enforcement "
+            "settings followed by a read; rotation chains of 1..3 hops with expired intermediate roots and fresh/expired "
+            "final root; all 24 orders of the four expiries with reads placed between consecutive expiries (forward "
+            "jumps) and a backward jump between reads; three cycles on one datastore with the clock stepping back by "
+            "20 s, 1 h, 400 d and catching up again; random mixtures. The client's clock is real time plus the hook "
+            "offset; clock values within a case are >= 2 s apart and >= 10 s away from every expiry. Non-trivial: some "
+            "role is expired, an expiry lies between two samples, or the clock moves backwards.",
+    "explanation": "Theorems (Tough/Props/C04.lean): Safe + successful cycle => final root, timestamp, snapshot, targets all "
+                   "unexpired and clock not before the recorded time; intermediate roots' expiry is not consulted; the "
+                   "read gate fails once any of the four expiries has passed and lets through before; a stepped-back "
+                   "clock fails every sampling operation; with Unsafe the result is the same for every clock value; an "
+                   "'expired' verdict implies the expiry really lies before the clock. Correspondence: load() and "
+                   "read_target() results (incl. expired/clock error class) vs the model, using the clock-offset hook.",
+    "level_text": "Kernel-checked statements over the update-cycle and read-gate model for all clocks, expiries and stored "
+                  "times; differential runs with a hooked clock.",
+    "level_note": "Trusted: as C02, plus the hook (feature verif-hooks: an offset added to Utc::now() in "
+                  "Datastore::system_time) and chrono's RFC 3339 round trip of the stored time. The boundary clock == "
+                  "expiry is not exercised (real time flows during a case).",
+    "trusted": _CLIENT_TRUSTED, "assumptions": ["all clock samples of one operation are modelled as one value (margins >= 2 s in the harness)"],
+}
+
 _PENDING = "check under construction in this session (DESIGN.md §10 order of work); not claimed until it runs"
 NOT_APPLICABLE = {f"C{i:02d}": _PENDING for i in range(1, 21)}
